@@ -37,6 +37,10 @@ def run(tier):
     _e_closest(chk, tier)
     _e_refine(chk)
     _bcd_backend(chk)
+    # requests / section data that are cached must be keyed by the options (radius, limits) they were built with
+    from .. import memo
+    memo.check_modules(chk, "C19.c-memo", ["hiten.algorithms.connections.backends", "hiten.algorithms.connections.interfaces", "hiten.algorithms.connections.engine",
+                                           "hiten.algorithms.connections.base"], floor=0)
     return chk
 
 
@@ -234,6 +238,8 @@ def _bcd_backend_inner(chk):
     clouds = [
         ("well separated", [(0, 0), (5, 0), (10, 0)], [(R(1, 10), 0), (R(51, 10), R(1, 10)), (20, 0)], R(1)),
         ("competition", [(0, 0), (R(3, 5), 0), (4, 0)], [(R(1, 4), 0), (R(41, 10), 0), (R(39, 10), R(1, 5))], R(1)),
+        # u1's nearest partner s0 prefers u0; s1's nearest partner u1 prefers s0: only (u0, s0) is mutual (greedy matching would add (u1, s1))
+        ("chain", [(0, 0), (R(1, 2), 0)], [(R(1, 5), 0), (R(9, 10), 0)], R(1)),
         ("nothing in radius", [(0, 0), (5, 0)], [(2, 2), (8, 8)], R(1)),
         ("single", [(0, 0), (3, 3)], [(R(1, 10), R(1, 10)), (9, 9)], R(1, 2)),
     ]
@@ -280,6 +286,15 @@ def _bcd_backend_inner(chk):
             dvn = dv.subs(rep)
             if not dvn <= rep[dv_tol]:
                 ok_c, detail = False, f"delta_v={dvn} exceeds dv_tol={rep[dv_tol]}"
+            # the limit is tested on the reported mismatch itself (not on the node mismatch of the pair before refinement)
+            guarded = False
+            for cond, ans in ip.decide.asked_raw:
+                if isinstance(cond, (sp.Le, sp.Lt, sp.Ge, sp.Gt)) and cond.has(dv_tol) and ans is not None:
+                    lhs, rhs = (cond.lhs, cond.rhs) if isinstance(cond, (sp.Le, sp.Lt)) else (cond.rhs, cond.lhs)
+                    if ans is True and rhs == dv_tol and sp.simplify(lhs ** 2 - dv ** 2) == 0:
+                        guarded = True
+            if not guarded:
+                ok_c, detail = False, f"the reported delta_v of pair ({r.attrs['index_u']}, {r.attrs['index_s']}) is not the quantity compared with dv_tol"
             lab = "ballistic" if dvn <= rep[bal_tol] else "impulsive"
             if r.attrs["kind"] != lab:
                 ok_c, detail = False, f"kind={r.attrs['kind']} for delta_v={dvn}, bal_tol={rep[bal_tol]}"
